@@ -39,6 +39,10 @@ func prov(v ssa.Value, d int, seen map[ssa.Value]bool) []string {
 	}
 	seen[v] = true
 	defer delete(seen, v)
+	// a value carried in a field of a local parameter struct is the value stored into that field
+	if f := world.Forward(v); f != v {
+		return prov(f, d+1, seen)
+	}
 	switch x := v.(type) {
 	case *ssa.Const:
 		if x.IsNil() {
